@@ -156,7 +156,7 @@ def run_kani_cfg(cfg, obls, results, key):
     export = os.path.join(BUILD, 'kani_%s_%d_%d.json' % (cfg, os.getpid(), int(time.time() * 1000) % 100000))
     mem = sum(o['mem'] for o in todo)
     jobs = max(1, min(len(todo), NCPU - 2, int(len(todo) * 44 / max(mem, 1)) or 1))
-    timeout = max(o['timeout'] for o in todo)
+    timeout = max(o['timeout'] for o in todo) * (3 if os.environ.get('VERIF_TIER_RUNNING') == 'thorough' else 1)
     cmd = kani_cmd(cfg, [o['path'] for o in todo], jobs, timeout, export)
     log('[kani:%s] %d harnesses, -j %d, timeout %ds' % (cfg, len(todo), jobs, timeout))
     t0 = time.time()
@@ -458,6 +458,7 @@ def load_known():
 
 def check_property(prop, tier, seed=0):
     t0 = time.time()
+    os.environ['VERIF_TIER_RUNNING'] = tier
     key = tree_key()
     results = {}
     kobls = registry.kani_for(prop, tier)
@@ -469,7 +470,7 @@ def check_property(prop, tier, seed=0):
     # Kani: one invocation per cfg, concurrently
     threads = []
     for cfg in registry.CFGS:
-        obls = [o for o in kobls if cfg in o['cfgs']]
+        obls = [o for (o, cfgs) in kobls if cfg in cfgs]
         if obls:
             th = threading.Thread(target=run_kani_cfg, args=(cfg, obls, results, key))
             th.start()
